@@ -1,3 +1,289 @@
+// vworker serves library calls of gertab/Grits (types, parser, typechecker) one JSON request per
+// line, so that a crash, stack overflow or hang of the library is an observation of the caller
+// (EOF / time-out), not a failure of the harness.
 package main
 
-func main() {}
+import (
+	"bufio"
+	"encoding/json"
+	"fmt"
+	"io"
+	"os"
+	"strings"
+	"sync"
+	"time"
+
+	"grits/parser"
+	"grits/process"
+	"grits/types"
+)
+
+type Req struct {
+	Id      int               `json:"id"`
+	Op      string            `json:"op"`
+	Text    string            `json:"text"`
+	Defs    []json.RawMessage `json:"defs"`    // [{name, t}]
+	Queries [][2]json.RawMessage `json:"queries"` // pairs of types
+	Types   []json.RawMessage `json:"types"`
+	GraceMs int               `json:"grace_ms"`
+	Dump    bool              `json:"dump"`
+}
+
+type tdef struct {
+	Name string          `json:"name"`
+	T    json.RawMessage `json:"t"`
+}
+
+func mode(s string) types.Modality {
+	if s == "" || s == "unset" {
+		return types.NewUnsetMode()
+	}
+	return types.StringToMode(s)
+}
+
+// build constructs a session type from its JSON rendering (same shape as process.VerifType)
+func build(raw json.RawMessage) types.SessionType {
+	var m map[string]json.RawMessage
+	if err := json.Unmarshal(raw, &m); err != nil {
+		panic("bad type json: " + err.Error())
+	}
+	str := func(k string) string {
+		var s string
+		if v, ok := m[k]; ok {
+			json.Unmarshal(v, &s)
+		}
+		return s
+	}
+	opts := func() []types.Option {
+		var bs []struct {
+			Label string          `json:"label"`
+			T     json.RawMessage `json:"t"`
+		}
+		json.Unmarshal(m["br"], &bs)
+		r := make([]types.Option, len(bs))
+		for i, b := range bs {
+			r[i] = types.Option{Label: b.Label, SessionType: build(b.T)}
+		}
+		return r
+	}
+	switch str("k") {
+	case "name":
+		return types.NewLabelType(str("name"), mode(str("mode")))
+	case "unit":
+		return types.NewUnitType(mode(str("mode")))
+	case "send":
+		return types.NewSendType(build(m["l"]), build(m["r"]), mode(str("mode")))
+	case "recv":
+		return types.NewReceiveType(build(m["l"]), build(m["r"]), mode(str("mode")))
+	case "sel":
+		return types.NewSelectLabelType(opts(), mode(str("mode")))
+	case "bra":
+		return types.NewBranchCaseType(opts(), mode(str("mode")))
+	case "up":
+		return types.NewUpType(mode(str("from")), mode(str("to")), build(m["t"]))
+	case "down":
+		return types.NewDownType(mode(str("from")), mode(str("to")), build(m["t"]))
+	}
+	panic("unknown type kind " + str("k"))
+}
+
+func buildDefs(raw []json.RawMessage) []types.SessionTypeDefinition {
+	var defs []types.SessionTypeDefinition
+	for _, r := range raw {
+		var d tdef
+		json.Unmarshal(r, &d)
+		defs = append(defs, types.SessionTypeDefinition{Name: d.Name, SessionType: build(d.T)})
+	}
+	return defs
+}
+
+func captureStdout(f func()) string {
+	old := os.Stdout
+	r, w, err := os.Pipe()
+	if err != nil {
+		f()
+		return ""
+	}
+	os.Stdout = w
+	var buf strings.Builder
+	var wg sync.WaitGroup
+	wg.Add(1)
+	go func() { defer wg.Done(); io.Copy(&buf, r) }()
+	f()
+	os.Stdout = old
+	w.Close()
+	wg.Wait()
+	r.Close()
+	return buf.String()
+}
+
+func errStr(e error) string {
+	if e == nil {
+		return "ok"
+	}
+	return "error: " + e.Error()
+}
+
+func modesTable() map[string]interface{} {
+	names := []string{"rep", "mul", "aff", "lin"}
+	ms := map[string]types.Modality{}
+	for _, n := range names {
+		ms[n] = types.StringToMode(n)
+	}
+	down, up, eq := map[string]bool{}, map[string]bool{}, map[string]bool{}
+	for _, a := range names {
+		for _, b := range names {
+			down[a+">"+b] = ms[a].CanBeDownshiftedTo(ms[b])
+			up[a+">"+b] = ms[a].CanBeUpshiftedTo(ms[b])
+			eq[a+"="+b] = ms[a].Equals(ms[b])
+		}
+	}
+	w, c, full, short := map[string]bool{}, map[string]bool{}, map[string]string{}, map[string]string{}
+	for _, a := range names {
+		w[a] = ms[a].AllowsWeakening()
+		c[a] = ms[a].AllowsContraction()
+		full[a] = ms[a].FullString()
+		short[a] = ms[a].String()
+	}
+	sp := map[string]string{}
+	for _, s := range []string{"r", "rep", "replicable", "m", "mul", "multicast", "a", "aff", "affine", "l", "lin", "linear",
+		"R", "Rep", "LINEAR", "Aff", "MUL", "x", "", "linn", "re", "multi", "unset", "invalid"} {
+		sp[s] = types.StringToMode(s).String()
+	}
+	return map[string]interface{}{"down": down, "up": up, "eq": eq, "weak": w, "contr": c, "full": full, "short": short, "spell": sp}
+}
+
+func handle(rq Req) (resp map[string]interface{}) {
+	resp = map[string]interface{}{"id": rq.Id}
+	switch rq.Op {
+	case "ping":
+		resp["pong"] = true
+	case "modes":
+		resp["table"] = modesTable()
+	case "eq":
+		// type definitions given structurally with all modes explicit; queries are pairs of types
+		defs := buildDefs(rq.Defs)
+		for i := range defs {
+			defs[i].Modality = defs[i].SessionType.Modality()
+		}
+		env := types.ProduceLabelledSessionTypeEnvironment(defs)
+		resp["wf"] = errStr(types.SanityChecksTypeDefinitions(defs))
+		var rs []bool
+		for _, q := range rq.Queries {
+			rs = append(rs, types.EqualType(build(q[0]), build(q[1]), env))
+		}
+		resp["results"] = rs
+	case "wfdefs":
+		// the pipeline of the parser (SetModalityTypeDef) + the typechecker's preliminary check, on structural definitions
+		defs := buildDefs(rq.Defs)
+		types.SetModalityTypeDef(defs)
+		resp["wf"] = errStr(types.SanityChecksTypeDefinitions(defs))
+		var ds []interface{}
+		for _, d := range defs {
+			ds = append(ds, map[string]interface{}{"name": d.Name, "mode": d.Modality.String(), "t": process.VerifType(d.SessionType)})
+		}
+		resp["defs"] = ds
+		var unf []interface{}
+		if resp["wf"] == "ok" {
+			env := types.ProduceLabelledSessionTypeEnvironment(defs)
+			for _, d := range defs {
+				u := types.Unfold(types.NewLabelType(d.Name, d.Modality), env)
+				unf = append(unf, process.VerifType(u))
+			}
+		}
+		resp["unfold"] = unf
+	case "check":
+		procs, assumed, genv, err := parser.ParseString(rq.Text)
+		resp["parse"] = errStr(err)
+		if err != nil {
+			return
+		}
+		resp["nprocs"], resp["nfuncs"], resp["ntypes"], resp["nassumed"] = len(procs), len(*genv.FunctionDefinitions), len(*genv.Types), len(assumed)
+		var pn, fn, tn []string
+		for _, p := range procs {
+			for _, n := range p.Providers {
+				pn = append(pn, n.Ident)
+			}
+		}
+		for _, f := range *genv.FunctionDefinitions {
+			fn = append(fn, f.FunctionName)
+		}
+		for _, t := range *genv.Types {
+			tn = append(tn, t.Name)
+		}
+		resp["procnames"], resp["funcnames"], resp["typenames"] = pn, fn, tn
+		genv.LogLevels = []process.LogLevel{}
+		terr := process.Typecheck(procs, assumed, genv)
+		if rq.GraceMs > 0 {
+			time.Sleep(time.Duration(rq.GraceMs) * time.Millisecond)
+		}
+		resp["tc"] = errStr(terr)
+		if rq.Dump {
+			resp["dump"] = process.VerifDumpProgram(procs, genv)
+		}
+	case "parse":
+		procs, assumed, genv, err := parser.ParseString(rq.Text)
+		resp["parse"] = errStr(err)
+		if err == nil {
+			resp["nprocs"], resp["nfuncs"], resp["ntypes"], resp["nassumed"] = len(procs), len(*genv.FunctionDefinitions), len(*genv.Types), len(assumed)
+			if rq.Dump {
+				resp["dump"] = process.VerifDumpProgram(procs, genv)
+			}
+		}
+	case "lex":
+		out := captureStdout(func() { parser.LexAndPrintTokens(strings.NewReader(rq.Text)) })
+		var toks [][2]string
+		for _, l := range strings.Split(out, "\n") {
+			if strings.HasPrefix(l, "\t") {
+				parts := strings.SplitN(l[1:], "\t", 2)
+				if len(parts) == 2 {
+					toks = append(toks, [2]string{parts[0], parts[1]})
+				}
+			}
+		}
+		resp["tokens"] = toks
+	case "print":
+		// print each structural type, with and without modes
+		var ps []interface{}
+		for _, t := range rq.Types {
+			st := build(t)
+			ps = append(ps, map[string]string{"s": st.String(), "sm": st.StringWithModality(), "so": st.StringWithOuterModality()})
+		}
+		resp["printed"] = ps
+	default:
+		resp["error"] = "unknown op " + rq.Op
+	}
+	return
+}
+
+func main() {
+	sc := bufio.NewScanner(os.Stdin)
+	sc.Buffer(make([]byte, 1<<20), 1<<28)
+	out := bufio.NewWriter(os.Stderr)
+	realOut := os.NewFile(3, "results")
+	if realOut == nil {
+		fmt.Fprintln(os.Stderr, "fd 3 missing")
+		os.Exit(3)
+	}
+	_ = out
+	enc := json.NewEncoder(realOut)
+	for sc.Scan() {
+		line := strings.TrimSpace(sc.Text())
+		if line == "" {
+			continue
+		}
+		var rq Req
+		if err := json.Unmarshal([]byte(line), &rq); err != nil {
+			enc.Encode(map[string]interface{}{"error": "bad request: " + err.Error()})
+			continue
+		}
+		func() {
+			defer func() {
+				if r := recover(); r != nil {
+					enc.Encode(map[string]interface{}{"id": rq.Id, "panic": fmt.Sprint(r)})
+				}
+			}()
+			enc.Encode(handle(rq))
+		}()
+	}
+}
